@@ -37,7 +37,7 @@ def run(ctx):
     # locals / parameters the rules below refer to by name (a rename makes the analysis 'broken', never a violation)
     ctx.anchor(ctx.fn1('Oomd::Senpai::tick_immediate_backoff'), 'validate', 'reclaim_size', 'current_opt', 'limit_min_bytes_opt', 'original_swappiness', 'cgroup_ctx')
     ctx.anchor(ctx.fn1('Oomd::Senpai::run'), 'resolvedIt', 'trackedIt', 'resolved_cgroups')
-    ctx.anchor(ctx.fn1('Oomd::Senpai::reclaim'), 'cgroup_ctx', 'size', 'has_memory_reclaim_opt')
+    ctx.anchor(ctx.fn1('Oomd::Senpai::reclaim'), 'cgroup_ctx', 'size')
     ctx.anchor(ctx.fn1('Oomd::Senpai::tick'), 'state', 'cgroup_ctx', 'limit_min_bytes_opt', 'limit_max_bytes_opt')
     ctx.anchor(ctx.fn1('Oomd::Senpai::validateSwap'), 'effective_swap_util_pct_opt')
     ctx.anchor(ctx.fn1('Oomd::Senpai::initializeCgroup'), 'current_opt', 'start_limit', 'cgroup_ctx')
@@ -240,7 +240,11 @@ def run(ctx):
         ctx.check(a1 == "(*param:cgroup_ctx.current_usage(nullptr) - param:size)", "poke-value", "value-shape", rcl.loc(i), "poke limit = current usage - size", "poke limit = " + a1)
     for i in rcl.calls("Fs::writeMemReclaimAt"):
         g = Flow(P, rcl, cg=cg).guards(i)
-        ctx.check(Xr(rcl.nodes[i]["args"][1]) == "param:size" and ("*has_memory_reclaim_opt", True) in g, "memory.reclaim-size", "provenance", rcl.loc(i), "memory.reclaim receives the requested size when supported",
+        # 'memory.reclaim is supported': the probe's value read as true, through a local or directly
+        probes = locals_receiving(rcl, r"^this->hasMemoryReclaim\(cgroup_ctx\)$")
+        sup = any(p is True and (k in ["*" + n_ for n_ in probes] + [n_ + ".value()" for n_ in probes] + [n_ + ".value_or(false)" for n_ in probes] or
+                                 re.match(r"^(\*this->hasMemoryReclaim\(cgroup_ctx\)|this->hasMemoryReclaim\(cgroup_ctx\)\.value_or\(false\))$", k)) for k, p in g)
+        ctx.check(Xr(rcl.nodes[i]["args"][1]) == "param:size" and sup, "memory.reclaim-size", "provenance", rcl.loc(i), "memory.reclaim receives the requested size when supported",
                   "memory.reclaim written with " + Xr(rcl.nodes[i]["args"][1]))
     # the bound 'at most max_probe x (usage - floor) bytes' is per tick: the requested size reaches the kernel exactly once -
     # no loop around the memory.reclaim write anywhere between the tick and the file
